@@ -24,7 +24,7 @@ ASSUMPTIONS = [
     'children are xs:string leaves with valid content, so the child sequence is the only source of invalidity',
     'the domain is models that the Glushkov reference finds deterministic under 1.0-style UPA and that the library accepts; others are skipped and counted',
     'open content: a word is judged only where the existential and the model-first reading agree (others counted as contested)',
-    'word length bound per model: all words up to the largest length with at most 500 (quick) / 3000 (thorough) words, max 4 / 6',
+    'word length bound per model: all words up to the largest length with at most 500 words (max 4); thorough adds, for plain element-leaf models, the lengths up to 1500 words (max 6)',
 ]
 VERSIONS = {'1.0': XMLSchema10, '1.1': XMLSchema11}
 PACK = 40
@@ -39,11 +39,11 @@ def spaces(tier):
     if tier == 'quick':
         return small + [('M4-O5-D2', 4, M.O5, 2, None, False),
                         ('M4-O5', 4, M.O5, None, None, True), ('M5-O8-D1', 5, M.O8, 1, None, True),
-                        ('M4-O5-D2-leaf', 4, M.O5, 2, 'leaf', True), ('M4-O5-D2-open', 4, M.O5, 2, 'open', True),
-                        ('M4-O5-D2-gref', 4, M.O5, 2, 'gref', True)]
+                        ('M4-O5-D1-leaf', 4, M.O5, 1, 'leaf', True), ('M4-O5-D1-open', 4, M.O5, 1, 'open', True),
+                        ('M4-O5-D1-gref', 4, M.O5, 1, 'gref', True)]
     return small + [('M4-O5', 4, M.O5, None, None, False), ('M5-O8-D1', 5, M.O8, 1, None, False),
-                    ('M4-O5-D2-leaf', 4, M.O5, 2, 'leaf', False), ('M4-O5-D2-open', 4, M.O5, 2, 'open', False),
-                    ('M4-O5-D2-gref', 4, M.O5, 2, 'gref', False)]
+                    ('M4-O5-D1-leaf', 4, M.O5, 1, 'leaf', False), ('M4-O5-D1-open', 4, M.O5, 1, 'open', False),
+                    ('M4-O5-D1-gref', 4, M.O5, 1, 'gref', False)]
 
 
 def shards(tier, seed):
@@ -155,13 +155,17 @@ def max_len(nsym, budget, cap):
     return max(ln, 2)
 
 
+def plain_model(model):
+    return all(lf[0] == 'el' and lf[4] in ('a', 'b', 'c') for lf in M.leaves(model))
+
+
 def length_classes(model, tier, opn=None):
     """[(class name, lengths)]: 'base' is explored by both tiers, 'long' only by thorough."""
     k = len(sigma_of(model, opn))
     base = max_len(k, 500, 4)
     out = [('base', range(0, base + 1))]
-    if tier == 'thorough':
-        top = max_len(k, 3000, 6)
+    if tier == 'thorough' and opn is None and plain_model(model):
+        top = max_len(k, 1500, 6)
         if top > base:
             out.append(('long', range(base + 1, top + 1)))
     return out
